@@ -358,8 +358,11 @@ impl EigenTrustEngine {
         }
 
         // Apply time decay
-        let last_update = self.last_update.read().await;
-        let elapsed = last_update.elapsed().as_secs() as f64 / 3600.0; // hours
+        // Read the timestamp in one statement so the read guard is released here: a guard
+        // bound to a local lives until the end of the function and deadlocks against
+        // `self.last_update.write()` below (every call then sat out its 2 s timeout and
+        // returned the whole cache instead of the computed map).
+        let elapsed = self.last_update.read().await.elapsed().as_secs() as f64 / 3600.0; // hours
 
         for (_, trust) in trust_vector.iter_mut() {
             *trust *= self.decay_rate.powf(elapsed);
